@@ -141,6 +141,8 @@ def _stage(draw, idx, ctr, kinds):
         else:
             ctr['m'] += 1
             w[s] = ['lit', ctr['m']]
+    box = [ctr['m'] + 1, ctr['m'] + 2]
+    ctr['m'] += 2
     tags = {s: False for s in w}
     return {
         'safe': True,
@@ -150,6 +152,9 @@ def _stage(draw, idx, ctr, kinds):
         'writes': w, 'tags': tags,
         'alias': draw(st.integers(0, 2)) == 0,
         'alias2': draw(st.integers(0, 2)) == 0,
+        # data written below an !unsafe mapping that itself sits in an *untagged* mapping (which the loader fills late), repeated by an
+        # alias as an argument of a call: [two fresh markers] or None
+        'box': box if draw(st.integers(0, 5)) == 0 else None,
         'grp_safe_md': draw(st.integers(0, 4)) == 0,      # an explicit "safe: True" on the group: it must not lift what is inherited from above
         'order': draw(st.permutations(sorted(k for k in w if k not in ('g1', 'gd')) + ['grp'])),
     }
@@ -364,6 +369,13 @@ def stage_doc(stage):
                 out.append(['grp', g])
         elif k in items:
             out.append([k, items[k]])
+    if stage.get('box'):
+        takers = [v for k, v in out if k in ('n1', 'n2') and stage['writes'][k][0] in ('call', 'bind', 'args')]
+        if takers:
+            m1, m2 = stage['box']
+            data = tdoc.mp([('p', tdoc.sc(m1)), ('q', tdoc.sq([tdoc.sc(m2)], flow=True))], flow=True, anchor='d3a')
+            out.insert(0, ['box', tdoc.mp([('u', tdoc.mp([('v', data)], unsafe=True, mdstyle='short'))])])
+            takers[0]['items'] = list(takers[0]['items']) + [['dz3', {'t': 'alias', 'name': 'd3a'}]]
     root = tdoc.mp(out)
     if stage['root_unsafe']:
         root['unsafe'] = True
@@ -415,6 +427,9 @@ def provenance(case):
             elif k == 'map':
                 for a, m in w[1]:
                     marker_taint[m] = t
+        if st_.get('box'):
+            for m in st_['box']:
+                marker_taint[m] = True
     return id_taint, marker_taint
 
 
@@ -585,6 +600,8 @@ def run_case(case):
         labels.add('aliased-dynamic-node')
     if any('*d1a' in t for t in texts):
         labels.add('aliased-data')
+    if any('*d3a' in t for t in texts):
+        labels.add('aliased-data-of-a-nested-unsafe-mapping')
     touched = {}
     for s_ in stages:
         for k in s_['writes']:
